@@ -12,17 +12,23 @@
 EXTENDS Naturals, Integers, Sequences, FiniteSets
 
 (* ---------- generic sequence helpers (no sets of heterogeneous values) -- *)
-RECURSIVE FlattenSeq(_)
-FlattenSeq(ss) == IF ss = <<>> THEN <<>> ELSE Head(ss) \o FlattenSeq(Tail(ss))
+\* concatenation of a sequence of sequences; divide and conquer: recursion depth log n (TLC is quadratic in the DEPTH of a
+\* recursion, and documents / names with thousands of elements are flattened here)
+RECURSIVE FlattenRange(_, _, _)
+FlattenRange(ss, lo, hi) == IF lo > hi THEN <<>>
+                            ELSE IF lo = hi THEN ss[lo]
+                            ELSE LET mid == (lo + hi) \div 2 IN FlattenRange(ss, lo, mid) \o FlattenRange(ss, mid + 1, hi)
+FlattenSeq(ss) == FlattenRange(ss, 1, Len(ss))
 
 MapSeq(s, Op(_)) == [i \in 1..Len(s) |-> Op(s[i])]
 FlatMapSeq(s, Op(_)) == FlattenSeq([i \in 1..Len(s) |-> Op(s[i])])
 
 FilterSeq(s, Test(_)) ==
-  LET RECURSIVE F(_)
-      F(i) == IF i > Len(s) THEN <<>>
-              ELSE (IF Test(s[i]) THEN <<s[i]>> ELSE <<>>) \o F(i + 1)
-  IN F(1)
+  LET RECURSIVE F(_, _)
+      F(lo, hi) == IF lo > hi THEN <<>>
+                   ELSE IF lo = hi THEN (IF Test(s[lo]) THEN <<s[lo]>> ELSE <<>>)
+                   ELSE LET mid == (lo + hi) \div 2 IN F(lo, mid) \o F(mid + 1, hi)
+  IN F(1, Len(s))
 
 SeqRange(s) == {s[i] : i \in 1..Len(s)}
 CountIn(s, x) == Cardinality({i \in 1..Len(s) : s[i] = x})
@@ -38,6 +44,9 @@ JNull        == Blank
 JBool(x)     == [Blank EXCEPT !.t = "bool", !.b = x]
 JNum(m, e, f) == [Blank EXCEPT !.t = "num", !.m = m, !.e = e, !.f = f]   \* m * 10^e; f: stored/written as a float
 JInt(i)      == JNum(i, 0, FALSE)
+\* a number with MORE digits than a 32-bit integer holds: the decimal digits of |m| followed by the digit characters xs,
+\* times 10^e (m # 0).  The field s is otherwise unused for numbers.
+JNumX(m, xs, e, f) == [Blank EXCEPT !.t = "num", !.m = m, !.s = xs, !.e = e, !.f = f]
 JStr(s)      == [Blank EXCEPT !.t = "str", !.s = s]
 JArr(kids)   == [Blank EXCEPT !.t = "arr", !.kids = kids]
 JObj(keys, kids) == [Blank EXCEPT !.t = "obj", !.keys = keys, !.kids = kids]
@@ -57,7 +66,35 @@ Digits(m) == IF m < 10 THEN 1 ELSE 1 + Digits(m \div 10)
 RECURSIVE Pow10(_)
 Pow10(n) == IF n = 0 THEN 1 ELSE 10 * Pow10(n - 1)
 
-NumEq(a, b) == NumNorm(a) = NumNorm(b)
+NumEqS(a, b) == NumNorm(a) = NumNorm(b)
+
+\* ---- arbitrary precision: compare digit sequences instead of machine integers
+RECURSIVE DigSeq(_)
+DigSeq(n) == IF n < 10 THEN <<n>> ELSE Append(DigSeq(n \div 10), n % 10)
+RECURSIVE StripLead(_)
+StripLead(ds) == IF ds # <<>> /\ ds[1] = 0 THEN StripLead(Tail(ds)) ELSE ds
+RECURSIVE StripTrail(_)
+StripTrail(ds) == IF ds # <<>> /\ ds[Len(ds)] = 0 THEN StripTrail(SubSeq(ds, 1, Len(ds) - 1)) ELSE ds
+\* [neg, ds, pos]: value = (+-) 0.ds * 10^pos with ds free of leading and trailing zeros (<<>> for zero)
+NormX(v) == LET all == StripLead(DigSeq(Abs(v.m)) \o [i \in 1..Len(v.s) |-> v.s[i] - 48])
+                ds == StripTrail(all)
+            IN [neg |-> v.m < 0, ds |-> ds, pos |-> Len(all) + v.e]
+RECURSIVE LexLt(_, _)
+LexLt(a, b) == IF b = <<>> THEN FALSE ELSE IF a = <<>> THEN TRUE
+               ELSE IF a[1] # b[1] THEN a[1] < b[1] ELSE LexLt(Tail(a), Tail(b))
+PosLtX(x, y) == IF x.pos # y.pos THEN x.pos < y.pos ELSE LexLt(x.ds, y.ds)
+NumEqX(a, b) == LET x == NormX(a)  y == NormX(b)
+                IN x.ds = y.ds /\ (x.ds = <<>> \/ (x.neg = y.neg /\ x.pos = y.pos))
+NumLtX(a, b) == LET x == NormX(a)  y == NormX(b) IN
+  CASE x.ds = <<>> /\ y.ds = <<>> -> FALSE
+    [] x.ds = <<>> -> ~y.neg
+    [] y.ds = <<>> -> x.neg
+    [] x.neg /\ ~y.neg -> TRUE
+    [] ~x.neg /\ y.neg -> FALSE
+    [] ~x.neg -> PosLtX(x, y)
+    [] OTHER -> PosLtX(y, x)
+IsLong(v) == v.s # <<>>
+NumEq(a, b) == IF IsLong(a) \/ IsLong(b) THEN NumEqX(a, b) ELSE NumEqS(a, b)
 
 \* a < b for positive normalised <<m, e>> pairs
 PosLt(a, b) ==
@@ -67,7 +104,7 @@ PosLt(a, b) ==
      ELSE LET lo == Min2(a[2], b[2])
           IN a[1] * Pow10(a[2] - lo) < b[1] * Pow10(b[2] - lo)
 
-NumLt(x, y) ==
+NumLtS(x, y) ==
   LET a == NumNorm(x)  b == NumNorm(y) IN
   CASE a[1] < 0 /\ b[1] >= 0 -> TRUE
     [] a[1] >= 0 /\ b[1] < 0 -> FALSE
@@ -75,6 +112,12 @@ NumLt(x, y) ==
     [] b[1] = 0 -> FALSE                    \* a > 0
     [] a[1] > 0 /\ b[1] > 0 -> PosLt(a, b)
     [] OTHER -> PosLt(<<-b[1], b[2]>>, <<-a[1], a[2]>>)
+
+NumLt(x, y) == IF IsLong(x) \/ IsLong(y) THEN NumLtX(x, y) ELSE NumLtS(x, y)
+\* the two formulations agree wherever both apply
+ASSUME \A a \in {0 - 120, 0 - 7, 0, 3, 50, 1200} : \A b \in {0 - 7, 0, 5, 12, 300} : \A ea \in {0 - 2, 0, 1} : \A eb \in {0 - 1, 0, 2} :
+         LET x == JNum(a, ea, TRUE)  y == JNum(b, eb, FALSE)
+         IN NumEqS(x, y) = NumEqX(x, y) /\ NumLtS(x, y) = NumLtX(x, y) /\ NumLtS(y, x) = NumLtX(y, x)
 
 (* ---------- strings ------------------------------------------------------ *)
 RECURSIVE StrLt(_, _)
